@@ -186,7 +186,7 @@ class Differential(Stage):
     def gen(self, d, tier):
         side = d.choice(['client', 'server'])
         specs = histgen.history(d, nconn=d.int(1, 2), nmsg=d.int(3, 30), profile=PROFILE, tagged=True)
-        return dict(specs=specs, vprefix=d.choice(['', '', '2', '5']))
+        return dict(specs=specs, vprefix=d.choice(['', '', '2', '5']), threads=[d.choice([1, 1, 2, 3]) for _ in range(d.int(1, 6))])
 
     def execute(self, case):
         res = Result()
@@ -204,6 +204,11 @@ class Differential(Stage):
                     ev = is_event if is_event is not None else False
                     sides[conn] = 'client' if (m['sent'] != ev) else 'server'
                 c = gdbsim.closure_of_message(m, sides[conn], conn, decl, case.get('vprefix', ''))
+                # closures are dispatched on whatever thread the program uses; a warning may go to the error stream, the
+                # displayed message must be the same
+                threads = case.get('threads') or [1]
+                c['thread'] = threads[res.evals % len(threads)]
+                c['thread_name'] = None if c['thread'] != 1 else 'main'
                 drv.deliver(c)
                 res.evals += 1
             for conn in sorted(sides, reverse=True):
